@@ -198,3 +198,7 @@ mod tests {
         Ok(())
     }
 }
+
+#[cfg(noodles_verif)]
+#[doc(hidden)]
+pub use self::op::__verif_encode_op;
